@@ -17,10 +17,10 @@ git apply $D/patch.diff || { echo "PATCH DOES NOT APPLY" | tee -a $OUT; exit 2; 
 go build ./... >>$OUT 2>&1 || { echo "BUILD FAILS" | tee -a $OUT; git checkout -q -- .; exit 2; }
 if go test -vet=off -count=1 ./... >>$OUT 2>&1; then echo "suite-with-patch: PASS" >>$OUT; else echo "suite-with-patch: FAIL" | tee -a $OUT; git checkout -q -- .; git clean -fdq; exit 2; fi
 cp "$demo" $place/zz_demo_test.go
-if timeout 600 go test -vet=off -count=1 ./$place/ >>$OUT 2>&1; then r1=PASS; else r1=FAIL; fi
+if timeout 900 go test ${DEMO_FLAGS:-} -vet=off -count=1 ./$place/ >>$OUT 2>&1; then r1=PASS; else r1=FAIL; fi
 echo "demo-with-patch: $r1" >>$OUT
 git checkout -q -- .
-if timeout 600 go test -vet=off -count=1 ./$place/ >>$OUT 2>&1; then r2=PASS; else r2=FAIL; fi
+if timeout 900 go test ${DEMO_FLAGS:-} -vet=off -count=1 ./$place/ >>$OUT 2>&1; then r2=PASS; else r2=FAIL; fi
 echo "demo-without-patch: $r2" >>$OUT
 rm -f $place/zz_demo_test.go; git clean -fdq
 if [ $r1 = FAIL ] && [ $r2 = PASS ]; then echo "CONFIRMED $ID/$M" | tee -a $OUT; exit 0; fi
